@@ -167,6 +167,19 @@ def check(rep, ctx):
                       message=f"VersionRange {text!r}: matches({v}) is {got_b}, the message-definition README says {want_b}", file=vfile,
                       line=0, instance=f"{text}|{v}")
     from ..gen_tables import dataclass_field_invariants
+    from ..gen_tables import field_nullability_grid, bool_default_spellings
+    R9 = rep.rule("C16-G9-per-version", "get_tag(v) / is_nullable(v) over a grid of definitions: tagging and nullability are resolved per version "
+                  "(taggedVersions / nullableVersions contain v), numeric primitives never nullable", floor=2000,
+                  necessary_because="a field that becomes tagged in v2 is an ordinary mandatory field in v0-v1")
+    psrc = ctx.sm.require("codegen.parser")
+    for row in field_nullability_grid(ctx):
+        rep.check(R9, row["ok"], construct=f"codegen.parser:PrimitiveField.{row['method']}", stmt=row["case"], message=row["message"],
+                  file=psrc.rel, line=0)
+    R10 = rep.rule("C16-G10-bool-default", "format_default prints the boolean the definition states for every accepted spelling", floor=8)
+    gsrc = ctx.sm.require("codegen.generate_schema")
+    for row in bool_default_spellings(ctx):
+        rep.check(R10, row["ok"], construct="codegen.generate_schema:format_default", stmt=row["case"], message=row["message"],
+                  file=gsrc.rel, line=row["line"])
     R8 = rep.rule("C16-G8-field", "format_dataclass_field: an explicit default is emitted as given whatever the tagging/ignorability; "
                   "metadata carries the kafka type and the tag iff tagged", floor=40,
                   necessary_because="ApiVersionsResponse.FinalizedFeaturesEpoch is tagged, ignorable and has default -1: it must stay -1")
